@@ -1037,8 +1037,21 @@ class Parser:
     def _proc_args(self, args: list[TokenInfo | ast.expr]) -> Iterator[ast.AST]:
         """split into chunks if they are not contiguous."""
         stash: None | ast.expr = None
+        # a run of adjacent tokens is one piece of text: joined here, once (gluing it on token by token copies the word so far,
+        # or the pieces so far, for every token)
+        pieces: list[TokenInfo | ast.expr] = []
+        run: list[TokenInfo] = []
+        for ar in [*args, None]:
+            if isinstance(ar, TokenInfo) and (not run or run[-1].end == ar.start):
+                run.append(ar)
+                continue
+            if run:
+                pieces.append(run[0] if len(run) == 1 else run[0]._replace(string="".join(t.string for t in run), end=run[-1].end))
+            run = [ar] if isinstance(ar, TokenInfo) else []
+            if ar is not None and not run:
+                pieces.append(ar)
 
-        for ar in args:
+        for ar in pieces:
             if not stash:
                 stash = self._append_node_or_token(stash, ar)
                 continue
